@@ -221,6 +221,15 @@ def Cfg.updateFromSection (c : Cfg) (otherName : String) (other : Section) (sect
 def Cfg.updateVars (c : Cfg) (d : List (String × String)) : Cfg :=
   { c with vars := d.foldl (fun acc (k, v) => dset acc k v) c.vars }
 
+/-- `del cfg[name]` (`__delitem__` / `__delattr__`): the section is taken out of the *flattened view* only — the
+per-profile store keeps it, so it is back after the next update or profile selection; KeyError when the view has no
+such section -/
+def Cfg.delSection (c : Cfg) (name : String) : Except Err Cfg :=
+  if dhas c.sections name then .ok { c with sections := c.sections.filter (fun p => p.1 ≠ name) } else .error .key
+
+/-- `cfg.clear()`: empties the flattened view (not the per-profile store) and the variables -/
+def Cfg.clear (c : Cfg) : Cfg := { c with sections := [], vars := [] }
+
 /-! ### Lookup -/
 
 /-- what `cfg[name]` / `cfg.get` hand back -/
